@@ -3,10 +3,12 @@ import importlib
 
 PROFILE_MODULES = {
     "crash": "crash",
+    "finders": "finders",
 }
 
 PROPERTY_PROFILE = {
     "C17": "crash",
+    "C11": "finders",
 }
 
 _cache = {}
